@@ -50,12 +50,12 @@ ASSUMPTIONS = [
 ]
 WORKERS = {"quick": 16, "thorough": 16}
 REQUIRE = {
-    "rq_pdus_checked": 250, "ac_pdus_checked": 250,
-    "rq_with_128_contexts": 3, "ac_for_128_contexts": 3,
-    "rq_with_negotiation_items": 50, "ac_with_negotiation_items": 30,
-    "api_rejected_configurations": 20,
-    "ac_accepted_items": 500, "ac_rejected_items": 200,
-    "titles_with_spaces_on_wire": 50, "uids_64_chars_on_wire": 20,
+    "rq_pdus_checked": 280, "ac_pdus_checked": 350,
+    "rq_with_128_contexts": 10, "ac_for_128_contexts": 10,
+    "rq_with_negotiation_items": 100, "ac_with_negotiation_items": 50,
+    "api_rejected_configurations": 40,
+    "ac_accepted_items": 2000, "ac_rejected_items": 2000,
+    "titles_with_spaces_on_wire": 150, "uids_64_chars_on_wire": 200,
 }
 
 # ------------------------------------------------------------------ reference notions of legality (PS3.5 6.2)
@@ -315,7 +315,7 @@ def gen_rq_config(rng, idx, tier):
     elif r < 0.27:
         rng.choice(pcs)["ts"] = []       # a context without any transfer syntax
         cfg["empty_ts_list"] = True
-    if tier == "thorough" and rng.random() < 0.01:
+    if tier == "thorough" and rng.random() < 0.002:
         cfg["max_pdu"] = 2 ** 32         # accepted by the API, RQ cannot be encoded (nothing is sent)
     return cfg
 
@@ -353,7 +353,7 @@ def gen_ac_block(rng, count):
 
 
 def gen_cases(tier, seed):
-    blocks, per = (32, 14) if tier == "quick" else (400, 16)
+    blocks, per = (32, 14) if tier == "quick" else (1200, 16)
     cases = []
     for b in range(blocks):
         cases.append({"seed": seed, "side": "rq", "block": b, "count": per, "tier": tier})
@@ -455,7 +455,7 @@ def check_common(raw, v, w, side, handed_uids, handed_illegal, enforce, T, ctx):
             continue
         if u in handed_illegal:
             if enforce:
-                T.add("wire|uid|illegal|enforce-on|%s|%s" % (where, d),
+                T.add("wire|uid|illegal|enforce-on|%s|%s" % (d, where),
                       "non-conformant UID %r accepted by the API and sent although ENFORCE_UID_CONFORMANCE is True; %s" % (u, ctx))
             else:
                 T.bump("optout_nonconformant_uid_on_wire_not_asserted")
@@ -492,7 +492,7 @@ def check_rq(raw, handed, T, ctx):
         if pc["n_abs"] != 1:
             T.add("rq|context|abstract-syntax-count", "context %d has %d abstract syntax sub-items; %s" % (pc["id"], pc["n_abs"], ctx))
         if len(pc["ts"]) < 1:
-            T.add("rq|context|no-transfer-syntax", "context %d (%s) has no transfer syntax sub-item; %s" % (pc["id"], pc["abs"], ctx))
+            T.add("rq|context|no-transfer-syntax", "context %d (%r) has no transfer syntax sub-item; %s" % (pc["id"], pc["abs"], ctx))
     check_common(raw, v, w, "rq", handed["uids"], handed["illegal"], handed["enforce"], T, ctx)
     # negotiation items must not be multiplied by pynetdicom
     kinds = [s["k"] for s in v["ui"] or []]
@@ -744,7 +744,7 @@ def run_rq_config(cfg, T):
     if rejected is not None:
         T.bump("api_rejected_configurations")
         T.bump("api_rejected|" + rejected.split(" at ")[1].split(":")[0])
-        if not cfg["expect_reject"] and not cfg.get("nonconformant_uid") and not cfg.get("empty_ts_list"):
+        if not cfg["expect_reject"] and cfg.get("nonconformant_uid") is None and not cfg.get("empty_ts_list"):
             T.bump("api_rejected_unexpectedly")
             T.notes["unexpected API rejection: " + rejected[:100]] = 1
         if raw:
